@@ -10,6 +10,8 @@ is reported per run by the correspondence), and binary64 rounding of numpy/LAPAC
 -/
 import Nitime.Model.C19
 import Nitime.Lemmas.C19Lin
+import Mathlib.Tactic.IntervalCases
+import Mathlib.Tactic.NormNum
 
 namespace Nitime.C19.Props
 open Nitime.C19 Finset
@@ -278,5 +280,186 @@ theorem fir_linear {n p : ℕ} {X : ℕ → ℕ → ℤ} {y1 y2 : ℕ → ℚ} {
   have : ∀ (f g : ℕ → ℚ), ∑ i ∈ range n, f i * (a * g i) = a * ∑ i ∈ range n, f i * g i := by
     intro f g; rw [Finset.mul_sum]; apply Finset.sum_congr rfl; intro i _; ring
   rw [this]
+
+/-! ### event-triggered average / standard error -/
+
+theorem mem_positions {n : ℕ} {ev : ℕ → ℤ} {t : ℤ} {k : ℕ} :
+    k ∈ positions n ev t ↔ k < n ∧ ev k = t := by
+  simp [positions]
+
+/-- the response windows of any two distinct events are disjoint -/
+def Separated (n : ℕ) (ev : ℕ → ℤ) (L : ℕ) : Prop :=
+  ∀ k < n, ∀ k' < n, ev k ≠ 0 → ev k' ≠ 0 → k ≠ k' → k + L ≤ k' ∨ k' + L ≤ k
+
+/-- inside the window of a separated event the planted signal is that event's response alone -/
+theorem planted_at_window (n : ℕ) (ev : ℕ → ℤ) (resp : ℤ → ℕ → ℚ) (off L : ℕ)
+    (hsep : Separated n ev L) (k : ℕ) (hk : k < n) (hev : ev k ≠ 0) (j : ℕ) (hj : j < L) :
+    planted n ev resp off L (k + off + j) = resp (ev k) j := by
+  unfold planted
+  rw [sumRange_eq, Finset.sum_eq_single k]
+  · rw [if_pos ⟨hev, by omega, by omega⟩]; congr 1; omega
+  · intro k' hk' hne
+    rw [if_neg]
+    rintro ⟨h1, h2, h3⟩
+    rcases hsep k hk k' (Finset.mem_range.mp hk') hev h1 (Ne.symm hne) with h | h <;> omega
+  · intro h; exact absurd (Finset.mem_range.mpr hk) h
+
+/-- what the average must return: the response, or the response minus its first sample under
+`correct_baseline` -/
+def etaTruth (cb : Bool) (resp : ℤ → ℕ → ℚ) (t : ℤ) (j : ℕ) : ℚ :=
+  if cb then resp t j - resp t 0 else resp t j
+
+theorem trig_planted (cb : Bool) (n : ℕ) (ev : ℕ → ℤ) (resp : ℤ → ℕ → ℚ) (off L : ℕ) (data : ℕ → ℚ)
+    (hdata : ∀ p, data p = planted n ev resp off L p) (hsep : Separated n ev L)
+    (t : ℤ) (ht : t ≠ 0) (j : ℕ) (hj : j < L) (k : ℕ) (hk : k ∈ positions n ev t) :
+    trig cb data off j k = etaTruth cb resp t j := by
+  obtain ⟨hkn, hkt⟩ := mem_positions.mp hk
+  have hev : ev k ≠ 0 := by rw [hkt]; exact ht
+  have e1 := planted_at_window n ev resp off L hsep k hkn hev j hj
+  have e0 := planted_at_window n ev resp off L hsep k hkn hev 0 (by omega)
+  unfold trig etaTruth
+  rw [hdata, hdata, e1, show k + off = k + off + 0 from rfl, e0, hkt]
+
+theorem meanOver_const (idx : List ℕ) (f : ℕ → ℚ) (c : ℚ) (hne : idx ≠ [])
+    (hf : ∀ k ∈ idx, f k = c) : meanOver idx f = c := by
+  unfold meanOver
+  rw [List.map_congr_left hf, List.map_const', List.sum_replicate, nsmul_eq_mul]
+  have : (idx.length : ℚ) ≠ 0 := by
+    simpa [List.length_eq_zero_iff] using hne
+  exact mul_div_cancel_left₀ c this
+
+/-- **eta_exact_no_overlap**: on a noise-free planted signal whose event windows do not overlap, the
+event-triggered average of every occurring code is exactly its response (minus the first sample
+under `correct_baseline`), for every offset -/
+theorem eta_exact_no_overlap (cb : Bool) (n : ℕ) (ev : ℕ → ℤ) (resp : ℤ → ℕ → ℚ) (off L : ℕ)
+    (data : ℕ → ℚ) (hdata : ∀ p, data p = planted n ev resp off L p) (hsep : Separated n ev L)
+    (t : ℤ) (ht : t ≠ 0) (hex : ∃ k < n, ev k = t) (j : ℕ) (hj : j < L) :
+    etaRow cb data (positions n ev t) off j = etaTruth cb resp t j := by
+  unfold etaRow
+  apply meanOver_const
+  · obtain ⟨k, hk, hkt⟩ := hex
+    exact List.ne_nil_of_mem (mem_positions.mpr ⟨hk, hkt⟩)
+  · exact fun k hk => trig_planted cb n ev resp off L data hdata hsep t ht j hj k hk
+
+/-- **ets_zero**: under the same hypotheses the squared standard error is exactly 0 (the driver
+prints `sqrt` of it, and `nan` when the code occurs only once, as scipy does) -/
+theorem ets_zero (cb : Bool) (n : ℕ) (ev : ℕ → ℤ) (resp : ℤ → ℕ → ℚ) (off L : ℕ)
+    (data : ℕ → ℚ) (hdata : ∀ p, data p = planted n ev resp off L p) (hsep : Separated n ev L)
+    (t : ℤ) (ht : t ≠ 0) (hex : ∃ k < n, ev k = t) (j : ℕ) (hj : j < L) :
+    semSqRow cb data (positions n ev t) off j = 0 := by
+  unfold semSqRow
+  rw [eta_exact_no_overlap cb n ev resp off L data hdata hsep t ht hex j hj]
+  have hz : ∀ k ∈ positions n ev t,
+      (trig cb data off j k - etaTruth cb resp t j) * (trig cb data off j k - etaTruth cb resp t j) = 0 := by
+    intro k hk
+    rw [trig_planted cb n ev resp off L data hdata hsep t ht j hj k hk, sub_self, mul_zero]
+  simp only []
+  rw [List.map_congr_left hz, List.map_const', List.sum_replicate]
+  simp
+
+/-- **estimates_linear (eta)**: the event-triggered average is linear in the data -/
+theorem eta_linear (cb : Bool) (x y : ℕ → ℚ) (a : ℚ) (idx : List ℕ) (off j : ℕ) :
+    etaRow cb (fun p => a * x p + y p) idx off j
+      = a * etaRow cb x idx off j + etaRow cb y idx off j := by
+  unfold etaRow meanOver
+  have h : ∀ k, trig cb (fun p => a * x p + y p) off j k
+      = a * trig cb x off j k + trig cb y off j k := by
+    intro k; unfold trig; split <;> ring
+  rw [funext h]
+  rw [List.sum_map_add, List.sum_map_mul_left]; ring
+
+/-! ### the two event representations, and the time axis -/
+
+/-- zero padding by `offset`: the padded sample `offset + j` after the padded event position `k + offset`
+is the original sample `k + offset + j` -/
+theorem padFn_window (o N : ℕ) (x : ℕ → ℚ) (k j : ℕ) (h : k + o + j < N) :
+    padFn 0 o N x ((k + o) + o + j) = x (k + o + j) := by
+  unfold padFn
+  rw [if_pos ⟨by omega, by omega⟩]; congr 1; omega
+
+/-- **eta_repr_equiv**: events at original samples `ks`.  Series branch: they sit at `k + offset` in the
+zero-padded event series and the average reads the padded data; Events branch (with the intended
+baseline handling): integer indices `k`, no padding.  Same average whenever the windows are inside
+the recording. -/
+theorem eta_repr_equiv (cb : Bool) (o N : ℕ) (x : ℕ → ℚ) (ks : List ℕ) (j : ℕ)
+    (hin : ∀ k ∈ ks, k + o + j < N) :
+    etaRow cb (padFn 0 o N x) (ks.map (· + o)) o j
+      = etaRowZ cb N x (ks.map Int.ofNat) (o : ℤ) j := by
+  unfold etaRow meanOver etaRowZ
+  simp only [List.map_map, List.length_map]
+  congr 1
+  congr 1
+  apply List.map_congr_left
+  intro k hk
+  have h := hin k hk
+  have w1 := padFn_window o N x k j h
+  have w0 := padFn_window o N x k 0 (by omega)
+  simp only [Function.comp, trig, trigZ, dataZ]
+  show _ = (if cb then _ else _)
+  simp only [Int.ofNat_eq_natCast]
+  have n1 : (0 : ℤ) ≤ (k : ℤ) + (o : ℤ) + (j : ℤ) := by omega
+  have n0 : (0 : ℤ) ≤ (k : ℤ) + (o : ℤ) := by omega
+  have t1 : ((k : ℤ) + (o : ℤ) + (j : ℤ)).toNat = k + o + j := by omega
+  have t0 : ((k : ℤ) + (o : ℤ)).toNat = k + o := by omega
+  rw [if_pos n1, if_pos n0, t1, t0, w1]
+  rw [show k + o + o = k + o + o + 0 from rfl, w0]
+  rfl
+
+/-- **axis_starts_at_offset**: the output axis starts at `t0 = offset · sampling_interval`, and sample j
+of the window of the event at original sample k is the original sample whose time is
+`k·Δ + t0 + j·Δ` -/
+theorem axis_starts_at_offset (si : ℤ) (o N : ℕ) (x : ℕ → ℚ) (k j : ℕ) (h : k + o + j < N) :
+    t0Ps o si = o * si ∧ padFn 0 o N x ((k + o) + o + j) = x (k + o + j) ∧
+    ((k + o + j : ℕ) : ℤ) * si = k * si + (t0Ps o si + j * si) := by
+  refine ⟨rfl, padFn_window o N x k j h, ?_⟩
+  unfold t0Ps; push_cast; ring
+
+/-! ### non-vacuity: a concrete overlapping two-type design (codes 1 and -2, L = 2) meeting every
+hypothesis of the FIR theorems, and a separated one for the averaging theorems.  (`firSolve` itself
+is run on these very designs by the driver on every check: `fixed_specs` in harness/c19.py.) -/
+
+def evA : ℕ → ℤ := fun k => if k = 0 then 1 else if k = 1 then -2 else if k = 3 then 1 else 0
+def respA : ℤ → ℕ → ℚ := fun t j => if t = 1 then (if j = 0 then 3 else 5) else (if j = 0 then 7 else 4)
+def yA : ℕ → ℚ := fun r =>
+  if r = 0 then 3 else if r = 1 then 12 else if r = 2 then 4 else if r = 3 then 3 else if r = 4 then 5 else 0
+
+example : eventTypes ((List.range 6).map evA) = [-2, 1] := by decide
+
+/-- responses of the events at 0 and 1 overlap at sample 1 (3,5 + 7,4 → 12) -/
+example : ∀ r < 6, yA r = planted 6 evA (signedResp false respA) 0 2 r := by
+  intro r hr
+  interval_cases r <;>
+    simp [planted, sumRange, List.range, List.range.loop, evA, yA, signedResp, sgn, respA]
+  norm_num
+
+theorem fullRank_A : FullColumnRank 6 4 (designEntry false evA [-2, 1] 2) := by
+  intro v hv c hc
+  have h0 := hv 0 (by omega)
+  have h1 := hv 1 (by omega)
+  have h2 := hv 2 (by omega)
+  have h4 := hv 4 (by omega)
+  simp [Finset.sum_range_succ, designEntry, sgn, evA] at h0 h1 h2 h4
+  rw [h4] at h1
+  interval_cases c <;> simp_all
+
+/-- a design that is NOT separated can still be full rank (so `fir_exact_recovery` really covers overlaps) -/
+example : ¬ Separated 6 evA 2 := by
+  intro h
+  have := h 0 (by omega) 1 (by omega) (by simp [evA]) (by simp [evA]) (by omega)
+  omega
+
+def evB : ℕ → ℤ := fun k => if k = 1 then 2 else if k = 4 then -1 else if k = 7 then 2 else 0
+
+theorem separated_B : Separated 10 evB 2 := by
+  intro k hk k' hk'
+  interval_cases k <;> interval_cases k' <;> simp [evB]
+
+/-- instance of `eta_exact_no_overlap` / `ets_zero` (code -1, offset 1, baseline correction on) -/
+example (resp : ℤ → ℕ → ℚ) (j : ℕ) (hj : j < 2) :
+    etaRow true (planted 10 evB resp 1 2) (positions 10 evB (-1)) 1 j = resp (-1) j - resp (-1) 0 ∧
+    semSqRow true (planted 10 evB resp 1 2) (positions 10 evB (-1)) 1 j = 0 :=
+  ⟨by simpa [etaTruth] using eta_exact_no_overlap true 10 evB resp 1 2 _ (fun _ => rfl) separated_B (-1)
+        (by omega) ⟨4, by omega, by simp [evB]⟩ j hj,
+   ets_zero true 10 evB resp 1 2 _ (fun _ => rfl) separated_B (-1) (by omega) ⟨4, by omega, by simp [evB]⟩ j hj⟩
 
 end Nitime.C19.Props
